@@ -392,6 +392,23 @@ def check_scopes(repo, res, rule_entry, rule_methods):
     _guard(func_masks, res, rule_entry, 'function-local name is never satisfied by an outer binding', SCOPE,
            'the entry region of a function must inherit the outer names minus the function\'s own locals')
 
+    def lambda_masks():
+        # a lambda is a function scope: a walrus inside it makes the target local to the lambda
+        top, tf, gx, gy = build()
+        fs = m.scope('FuncScope', top, top)
+        fs.attrs['name'] = 'lambda'
+        ff = m.flow('func', fs)
+        fs.attrs['flow'] = ff
+        lx = m.name('x', (5, 30))
+        m.add(ff, lx)
+        before = m.lookup(m.names_at(ff, (5, 20)), 'x')
+        y = m.describe(m.lookup(m.names_at(ff, (5, 20)), 'y'))
+        return before is None and y == frozenset([gy.oid]), \
+            'lambda: (x := x + 1): the right-hand x is read before the local x is bound -> %r (must not fall back to the ' \
+            'module-level x); y -> module' % (before,)
+    _guard(lambda_masks, res, rule_entry, 'a name bound inside a lambda (walrus) is local to the lambda', SCOPE,
+           'the entry region of a lambda must inherit the outer names minus the lambda\'s own locals, like any function')
+
     def func_masks_branch_local():
         top, tf, gx, gy = build()
         fs = m.scope('FuncScope', top, top)
